@@ -29,13 +29,14 @@
 namespace CuqiVerif.C12
 
 /-- Exception classes that the modelled code raises. -/
-inductive Err | notImplemented | valueError | typeError
+inductive Err | notImplemented | valueError | typeError | indexError
   deriving DecidableEq, Repr
 
 def Err.toString : Err → String
   | .notImplemented => "NotImplementedError"
   | .valueError => "ValueError"
   | .typeError => "TypeError"
+  | .indexError => "IndexError"
 
 /-- What a `CUQIarray` carries besides its numbers. -/
 structure Tag where
@@ -63,6 +64,10 @@ structure Geom (α : Type) where
   parDim : Nat
   p2fKeeps : Bool := true
   f2pKeeps : Bool := true
+  /-- identifiers of the geometries `g` for which evaluating `g == self` raises (`IndexError` in
+      `Geometry._all_values_equal` when two list-valued attributes have different lengths, e.g.
+      `Discrete(3) == Discrete(4)`) -/
+  eqRaises : List Nat := []
 
 section core
 variable {α β : Type}
@@ -75,20 +80,26 @@ def arrFunvals (G : Geom α) (d : α) (t : Tag) : Val α :=
 def arrParameters (G : Geom α) (d : α) (t : Tag) : Except Err (Val α) :=
   (if t.isPar then pure d else G.f2p d) >>= fun p => pure ⟨p, some ⟨true, t.geom⟩⟩
 
+/-- `val.geometry == geometry` for a CUQIarray `val` -/
+def geomEq (t : Tag) (G : Geom α) : Except Err Bool :=
+  if G.eqRaises.contains t.geom then throw Err.indexError else pure (t.geom == G.gid)
+
 /-- `Model._2fun(x, geometry, is_par)` -/
-def toFun (G : Geom α) (x : Val α) (isPar : Bool) : Val α :=
+def toFun (G : Geom α) (x : Val α) (isPar : Bool) : Except Err (Val α) :=
   match x.tag with
   | some t =>
-      if t.geom = G.gid then arrFunvals G x.data t
-      else if isPar then ⟨G.p2f x.data, if G.p2fKeeps then x.tag else none⟩
-      else x
-  | none => if isPar then ⟨G.p2f x.data, none⟩ else x
+      geomEq t G >>= fun eq =>
+      if eq then pure (arrFunvals G x.data t)
+      else if isPar then pure ⟨G.p2f x.data, if G.p2fKeeps then x.tag else none⟩
+      else pure x
+  | none => if isPar then pure ⟨G.p2f x.data, none⟩ else pure x
 
 /-- `Model._2par(val, geometry, to_CUQIarray, is_par)` -/
 def toPar (G : Geom α) (v : Val α) (toArr : Bool) (isPar : Bool) : Except Err (Val α) :=
   (match v.tag with
    | some t =>
-       if t.geom = G.gid then arrParameters G v.data t
+       geomEq t G >>= fun eq =>
+       if eq then arrParameters G v.data t
        else if !isPar then G.f2p v.data >>= fun p => pure ⟨p, if G.f2pKeeps then v.tag else none⟩
        else pure v
    | none => if !isPar then G.f2p v.data >>= fun p => pure ⟨p, none⟩ else pure v) >>= fun r =>
@@ -108,7 +119,7 @@ inductive Output (β : Type)
 def applyOne (func : Val α → Except Err (Val β)) (R : Geom β) (D : Geom α)
     (x : Val α) (isPar : Bool) : Except Err (Val β) :=
   let isArr := x.tag.isSome          -- `type(x) is CUQIarray`
-  func (toFun D x isPar) >>= fun out => toPar R out isArr false
+  toFun D x isPar >>= fun xf => func xf >>= fun out => toPar R out isArr false
 
 /-- `Model._apply_func`: a `Samples` object is iterated column by column, each column a plain
     array, **always** with `is_par=True`. -/
@@ -183,9 +194,9 @@ def gradientOne (m : ModelObj α β) (dir : Val β) (wrt : Val α) (isDirPar isW
   match m.gradientFunc with
   | none => throw Err.notImplemented
   | some gf =>
-    let wrtF := toFun m.domainGeom wrt isWrtPar
+    toFun m.domainGeom wrt isWrtPar >>= fun wrtF =>
     let dirIsArr := dir.tag.isSome
-    let dirF := toFun m.rangeGeom dir isDirPar
+    toFun m.rangeGeom dir isDirPar >>= fun dirF =>
     gf dirF wrtF >>= fun g =>
     match m.domainGeom.grad with
     | some gg => toPar m.domainGeom (gg g wrtPar) dirIsArr true
